@@ -6,3 +6,4 @@ import SpecsModel.Props.C19
 #print axioms SpecsModel.C19.interrupted_purge_frame
 #print axioms SpecsModel.C19.interrupted_clear_reports_empty
 #print axioms SpecsModel.C19.interrupted_bulk_destroys_subset
+#print axioms SpecsModel.C19.changeset_interrupted_clear
